@@ -884,6 +884,69 @@ func checkMintedNetblocks(c *km.Ctx, rule string) {
 	if n == 0 {
 		r.AnchorLost(rule, "RequestorNetblocks store of the minting request parser")
 	}
+	// a netblock is the network ParseCIDR returns (its address masked), never the host address as typed: a prefix
+	// with host bits set is encoded with non-zero padding and cannot be read back from the certificate
+	nCIDR := 0
+	for _, fn := range c.P.AllFuncs {
+		if !c.InModule(fn) || fn.Pkg == nil || !pkgIsKMD(fn.Pkg) {
+			continue
+		}
+		for _, ci := range km.CallsIn(fn) {
+			cl, isCall := ci.(*ssa.Call)
+			if !isCall || km.CalleeFull(cl.Common()) != "net.ParseCIDR" {
+				continue
+			}
+			nCIDR++
+			bad := ""
+			seen := map[ssa.Value]bool{}
+			var flow func(v ssa.Value, d int)
+			flow = func(v ssa.Value, d int) {
+				if seen[v] || d > 6 || v.Referrers() == nil {
+					return
+				}
+				seen[v] = true
+				for _, ref := range *v.Referrers() {
+					switch x := ref.(type) {
+					case *ssa.Store:
+						if fa, ok := x.Addr.(*ssa.FieldAddr); ok && x.Val == v && fieldNameOf(fa) == "IP" && km.NamedTypeOf(fa.X.Type()) == "net.IPNet" {
+							bad = "the address as typed becomes the netblock's base at " + posOf(c, x)
+						}
+						if al, ok := x.Addr.(*ssa.Alloc); ok && x.Val == v {
+							for _, r2 := range *al.Referrers() {
+								if ld, isLd := r2.(*ssa.UnOp); isLd {
+									flow(ld, d+1)
+								}
+							}
+						}
+					case *ssa.Call:
+						switch km.CalleeFull(x.Common()) {
+						case "(net.IP).To4", "(net.IP).To16":
+							if x.Common().Args[0] == v {
+								flow(x, d+1)
+							}
+						}
+					case *ssa.ChangeType:
+						flow(x, d+1)
+					case *ssa.Phi:
+						flow(x, d+1)
+					}
+				}
+			}
+			for _, ref := range *cl.Referrers() {
+				if ex, ok := ref.(*ssa.Extract); ok && ex.Index == 0 {
+					flow(ex, 0)
+				}
+			}
+			found := "the address result is not used as a netblock base"
+			if bad != "" {
+				found = bad
+			}
+			r.Add(rule, km.FuncName(fn), "netblock base is the masked network", posOf(c, ci), "no net.IPNet is built from ParseCIDR's address result (only its network result is canonical)", found, bad == "")
+		}
+	}
+	if nCIDR == 0 {
+		r.AnchorLost(rule, "net.ParseCIDR calls of the request parsers")
+	}
 	// the generator is handed that field (and, inside, the encoder consumes that parameter)
 	for _, fn := range c.P.AllFuncs {
 		if fn.Pkg == nil || !pkgIsKMD(fn.Pkg) {
